@@ -1213,6 +1213,18 @@ class Explorer(object):
                 return list(range(len(recv)))
             if m == 'values' and not args:
                 return list(recv)
+            if m == 'reduce' and 1 <= len(args) <= 2:
+                items = list(recv)
+                if len(args) == 2:
+                    acc = args[1]
+                elif items:
+                    acc, items = items[0], items[1:]
+                else:
+                    raise Raised(Abs('TypeError'), node)
+                off = len(recv) - len(items)
+                for i_, x in enumerate(items):
+                    acc = self.apply(args[0], [acc, x, i_ + off, recv], node)
+                return acc
             if m == 'forEach' and len(args) == 1:
                 for i_, x in enumerate(list(recv)):
                     self.apply(args[0], [x, i_], node)
